@@ -106,7 +106,8 @@ pub fn exec(reg: &Registry, st: &mut State, line: &str) -> Outcome {
                         }
                         Err(e) => {
                             let mut o = out(e.clone());
-                            if e != "bad-op" {
+                            let expected = e == "err:ToPrimitiveError" && !crate::sx::fits(&shape, &v);
+                            if e != "bad-op" && !expected {
                                 o.fails.push(("test_buffer_owned".into(), format!("TestByteSet round trip failed: {e}")));
                             }
                             o
@@ -144,6 +145,40 @@ pub fn exec(reg: &Registry, st: &mut State, line: &str) -> Outcome {
                     o
                 }
             }
+        }
+        "tbr" => {
+            let Some((t1, t2)) = rest.split_once(" | ") else { return bad() };
+            let Some(v1) = parse_one(t1).and_then(|x| to_val(&shape, &x)) else { return bad() };
+            let Some(v2) = parse_one(t2).and_then(|x| to_val(&shape, &x)) else { return bad() };
+            if !valid_bits(&shape, &v1, true) || !valid_bits(&shape, &v2, true) || !crate::sx::fits(&shape, &v1) || !crate::sx::fits(&shape, &v2) {
+                return bad();
+            }
+            if t.is_account() {
+                return bad();
+            }
+            let (r, an) = guarded(|| t.resize(&v1, &v2).ok_or_else(|| "bad-op".to_string())?);
+            let mut o = match r {
+                Ok((data, v)) => {
+                    let mut o = out(format!("ok {} {}", hex(&data), show_val(&shape, &v)));
+                    let (rb, _) = ref_bytes(&shape, &v2);
+                    if data != rb {
+                        o.fails.push(("test_buffer_owned".into(), format!("underlying_data() after set_from_owned is {} (len {}), expected {} (len {})", hex(&data), data.len(), hex(&rb), rb.len())));
+                    }
+                    if v != v2 {
+                        o.fails.push(("test_buffer_owned".into(), format!("owned() after set_from_owned = {}", show_val(&shape, &v))));
+                    }
+                    o
+                }
+                Err(e) => {
+                    let mut o = out(e.clone());
+                    if e != "bad-op" {
+                        o.fails.push(("test_buffer_owned".into(), format!("TestByteSet resize round trip failed: {e}")));
+                    }
+                    o
+                }
+            };
+            anomalies_to_fails(&mut o, an);
+            o
         }
         "init" => {
             let Some(a) = parse_one(rest).and_then(|x| to_init(&x)) else { return bad() };
@@ -305,16 +340,19 @@ fn op_enc(t: &dyn DynType, shape: &Shape, v: &crate::sx::Val, cap: Option<usize>
     let mut o = match r {
         Err(e) => {
             let mut o = out(e.clone());
-            if e == "panic" && crate::sx::fits(shape, v) {
-                o.fails.push(("size_accounting".into(), "byte_size/from_owned panicked on a representable value".into()));
+            if e == "panic" {
+                o.fails.push(("size_accounting".into(), "byte_size/from_owned panicked on an owned value".into()));
             }
             o
         }
         Ok(e) => match e.res {
             Err(class) => {
                 let mut o = out(class.clone());
-                let expected_panic = class == "panic" && !crate::sx::fits(shape, v);
-                if cap.map(|c| c >= e.byte_size).unwrap_or(true) && !expected_panic {
+                // a count that does not fit its length type must be reported as ToPrimitiveError
+                // (never a panic); with a short buffer AdvanceError may come first
+                let unfit = !crate::sx::fits(shape, v);
+                let expected = unfit && (class == "err:ToPrimitiveError" || (cap.is_some() && class == "err:AdvanceError"));
+                if cap.map(|c| c >= e.byte_size).unwrap_or(true) && !expected {
                     o.fails.push(("size_accounting".into(), format!("from_owned failed ({class}) in a buffer of byte_size {} bytes", e.byte_size)));
                 }
                 o
